@@ -165,6 +165,9 @@ class Harness:
                         self.add_component(nodes[c]["alias"], **nodes[c]["hard_kwargs"], **h.extra(c))
                     else:
                         self.add_component(nodes[c]["alias"], h.type_arg(c), **nodes[c]["hard_kwargs"], **h.extra(c))
+                if len(path) % 2 == 0:
+                    # a constructor that chains up only *after* it has declared its children (cooperative mixins often do)
+                    Component.__init__(self)
 
             async def prepare(self: Any) -> None:
                 add_resource(("prepare", path), "default", types=[h.marker_type(path, "prepare")])
